@@ -30,7 +30,9 @@ def group_expr_strategy():
             ch.map(lambda e: ('opt', e)),
             ch.map(lambda e: ('rep', nn(e), 0, None)),
             ch.map(lambda e: ('rep', nn(e), 1, None)),
-            st.tuples(ch, st.sampled_from([(2, 2), (1, 2), (None, 2), (2, None)])).map(lambda t: ('rep', nn(t[0]), t[1][0], t[1][1])),
+            # (bounds with different numbers of digits too: 2 < 10 numerically, "2" > "10" as text)
+            st.tuples(ch, st.sampled_from([(2, 2), (1, 2), (None, 2), (2, None), (2, 10), (9, 12), (None, 10), (10, None),
+                                           (3, 11)])).map(lambda t: ('rep', nn(t[0]), t[1][0], t[1][1])),
             st.tuples(ch, ch).map(lambda t: ('seq', [t[0], t[1]])),
         )
     return st.recursive(leaf, ext, max_leaves=7)
